@@ -22,11 +22,11 @@ Reset == /\ Ev("reset")
   /\ aFC' = [s \in Streams |-> 0] /\ aFCc' = 0 /\ aCred' = [s \in Streams |-> 0] /\ aCredC' = 0
   /\ sentLog' = [s \in Streams |-> <<>>] /\ dlvLog' = [s \in Streams |-> <<>>]
   /\ nSend' = 0 /\ nCtl' = 0 /\ hcount' = 0 /\ encOrder' = <<>> /\ dlvOrder' = <<>>
-  /\ pings' = {} /\ goneAway' = "no"
+  /\ pings' = {} /\ goneAway' = "no" /\ aClosed' = FALSE
   /\ pendA' = <<>> /\ seenCred' = [s \in Streams |-> 0] /\ seenCredC' = 0
 
 \* --- logged: A hands a frame to the wire
-LogA == /\ (Ev("a_data") \/ Ev("a_headers") \/ Ev("a_cont") \/ Ev("a_rst") \/ Ev("a_push") \/ Ev("a_prio") \/ Ev("a_ping") \/ Ev("a_goaway"))
+LogA == /\ (Ev("a_data") \/ Ev("a_headers") \/ Ev("a_cont") \/ Ev("a_rst") \/ Ev("a_push") \/ Ev("a_prio") \/ Ev("a_ping") \/ Ev("a_goaway") \/ Ev("a_close"))
         /\ pendA' = Append(pendA, T)
         /\ UNCHANGED <<vars, seenCred, seenCredC>>
 \* --- unlogged: relayFrames reads it and processFrame runs
@@ -40,6 +40,7 @@ ProcA == /\ pendA # <<>> /\ pendA' = Tail(pendA)
                 [] e.ev = "a_prio"    -> ASendPrio(e.s)
                 [] e.ev = "a_ping"    -> ASendPing(e.n)
                 [] e.ev = "a_goaway"  -> ASendGoAway
+                [] e.ev = "a_close"   -> ASendClose
          /\ UNCHANGED <<l, seenCred, seenCredC>>
 \* --- logged: B sends a control frame
 LogB == /\ Ev("b_ctl") /\ BCtl([t |-> T.t, s |-> T.s, v |-> T.v])
